@@ -27,6 +27,7 @@ import (
 //	connect a b        link a<->b comes up (no traffic yet)
 //	replay a b         a runs SendFullTable(b)              -> r=ord:<origins in emission order>
 //	announce a         a runs AnnounceLocalRoutes()
+//	withdraw a         a runs WithdrawLocalRoutes() (ROUTE_WITHDRAW frames share the seen cache and floodFrame)
 //	deliver a b i      frame i (mod queue length) of link a->b is handled by b   -> r=new|seen|drop|empty
 //	dup a b i          same, but the frame also stays queued (duplicate delivery)
 //	drop a b i         frame is lost
@@ -49,9 +50,15 @@ type c11Net struct {
 	maxHops int
 	nodes   []*c11Node
 	links   map[[2]int]bool
-	q       map[[2]int][][]byte
+	q       map[[2]int][]c11Frame
 	clock   int
 	t0      time.Time
+}
+
+// c11Frame is a queued ROUTE_ADVERTISE (wd=false) or ROUTE_WITHDRAW (wd=true) payload.
+type c11Frame struct {
+	wd      bool
+	payload []byte
 }
 
 type c11Sender struct {
@@ -73,11 +80,11 @@ func c11Idx(id identity.AgentID) int {
 }
 
 func (s *c11Sender) SendToPeer(peerID identity.AgentID, frame *protocol.Frame) error {
-	if frame.Type != protocol.FrameRouteAdvertise {
+	if frame.Type != protocol.FrameRouteAdvertise && frame.Type != protocol.FrameRouteWithdraw {
 		return nil
 	}
 	k := [2]int{s.self, c11Idx(peerID)}
-	s.net.q[k] = append(s.net.q[k], append([]byte(nil), frame.Payload...))
+	s.net.q[k] = append(s.net.q[k], c11Frame{wd: frame.Type == protocol.FrameRouteWithdraw, payload: append([]byte(nil), frame.Payload...)})
 	return nil
 }
 
@@ -176,7 +183,7 @@ func c11ParseLocs(tok string) []c11Loc {
 }
 
 func c11New(n, maxHops int, locs [][]c11Loc) *c11Net {
-	nw := &c11Net{n: n, maxHops: maxHops, links: map[[2]int]bool{}, q: map[[2]int][][]byte{}, t0: time.Now()}
+	nw := &c11Net{n: n, maxHops: maxHops, links: map[[2]int]bool{}, q: map[[2]int][]c11Frame{}, t0: time.Now()}
 	for i := 0; i < n; i++ {
 		id := c11ID(i)
 		mgr := routing.NewManager(id)
@@ -299,6 +306,30 @@ type c11Msg struct {
 	path   []int
 	seenBy []int
 	routes []c11Loc
+	wd     bool
+}
+
+// c11DecodeWd decodes a ROUTE_WITHDRAW payload (what Agent.handleRouteWithdraw does first).
+func c11DecodeWd(payload []byte) (*protocol.RouteWithdraw, *c11Msg) {
+	w, err := protocol.DecodeRouteWithdraw(payload)
+	if err != nil {
+		return nil, nil
+	}
+	m := &c11Msg{origin: c11Idx(w.OriginAgent), seq: w.Sequence, seenBy: c11Path(w.SeenBy), wd: true}
+	for _, r := range w.Routes {
+		m.routes = append(m.routes, c11Loc{0, c11CIDRKey(net.IP(r.Prefix)), int(r.Metric)})
+	}
+	sort.SliceStable(m.routes, func(a, b int) bool { return m.routes[a].key < m.routes[b].key })
+	return w, m
+}
+
+func c11DecodeFrame(f c11Frame) *c11Msg {
+	if f.wd {
+		_, m := c11DecodeWd(f.payload)
+		return m
+	}
+	_, m := c11Decode(f.payload)
+	return m
 }
 
 func c11Decode(payload []byte) (*protocol.RouteAdvertise, *c11Msg) {
@@ -341,13 +372,17 @@ func (m *c11Msg) String() string {
 	if len(rs) > 0 {
 		r = strings.Join(rs, "+")
 	}
-	return fmt.Sprintf("%d:%d:%s:%s:%s", m.origin, m.seq, c11PathStr(m.path), c11PathStr(m.seenBy), r)
+	out := fmt.Sprintf("%d:%d:%s:%s:%s", m.origin, m.seq, c11PathStr(m.path), c11PathStr(m.seenBy), r)
+	if m.wd {
+		out += ":w"
+	}
+	return out
 }
 
 func (nw *c11Net) queueStr(a, b int) string {
 	var ms []string
 	for _, p := range nw.q[[2]int{a, b}] {
-		_, m := c11Decode(p)
+		m := c11DecodeFrame(p)
 		if m == nil {
 			ms = append(ms, "undecodable")
 		} else {
@@ -417,7 +452,7 @@ func (nw *c11Net) apply(f []string) string {
 		nw.nodes[a].fl.SendFullTable(c11ID(b))
 		var ord []string
 		for _, p := range nw.q[[2]int{a, b}][before:] {
-			if _, m := c11Decode(p); m != nil {
+			if m := c11DecodeFrame(p); m != nil {
 				ord = append(ord, strconv.Itoa(m.origin))
 			} else {
 				ord = append(ord, "x")
@@ -431,6 +466,13 @@ func (nw *c11Net) apply(f []string) string {
 		}
 		nw.nodes[a].fl.AnnounceLocalRoutes()
 		return out("ok", nodeS(a), outQ(a))
+	case "withdraw":
+		a := arg(1)
+		if !node(a) {
+			return "r=bad"
+		}
+		nw.nodes[a].fl.WithdrawLocalRoutes()
+		return out("ok", nodeS(a), outQ(a))
 	case "deliver", "dup", "drop":
 		a, b, i := arg(1), arg(2), arg(3)
 		if !node(a) || !node(b) || !nw.links[[2]int{a, b}] || i < 0 {
@@ -441,20 +483,40 @@ func (nw *c11Net) apply(f []string) string {
 			return "r=empty"
 		}
 		i %= len(nw.q[k])
-		payload := nw.q[k][i]
+		frame := nw.q[k][i]
+		payload := frame.payload
 		if f[0] != "dup" {
-			nq := append([][]byte(nil), nw.q[k][:i]...)
+			nq := append([]c11Frame(nil), nw.q[k][:i]...)
 			nw.q[k] = append(nq, nw.q[k][i+1:]...)
 		}
 		if f[0] == "drop" {
 			return out("ok", queueS(a, b))
+		}
+		fl := nw.nodes[b].fl
+		if frame.wd {
+			// what Agent.handleRouteWithdraw does with a ROUTE_WITHDRAW frame from peer a
+			w, _ := c11DecodeWd(payload)
+			if w == nil {
+				return out("undecodable", nodeS(b), queueS(a, b))
+			}
+			pre := fl.HasSeen(w.OriginAgent, w.Sequence)
+			ret := fl.HandleRouteWithdraw(c11ID(a), w.OriginAgent, w.Sequence, w.Routes, w.SeenBy)
+			res := "new"
+			if pre {
+				res = "seen"
+			} else if !ret {
+				res = "drop"
+			}
+			if pre && ret {
+				res = "seen-but-processed"
+			}
+			return out(res, nodeS(b), queueS(a, b), outQ(b))
 		}
 		// what Agent.handleRouteAdvertise does with a ROUTE_ADVERTISE frame from peer a
 		adv, _ := c11Decode(payload)
 		if adv == nil {
 			return out("undecodable", nodeS(b), queueS(a, b))
 		}
-		fl := nw.nodes[b].fl
 		pre := fl.HasSeen(adv.OriginAgent, adv.Sequence)
 		ret := fl.HandleRouteAdvertise(c11ID(a), adv.OriginAgent, adv.OriginDisplayName, adv.Sequence, adv.Routes, adv.EncPath, adv.SeenBy)
 		res := "new"
@@ -656,7 +718,7 @@ func c11GenProfile(w *bufio.Writer, seed int64, tier string, prof string) {
 	r := newRng(seed)
 	cases, maxN, steps := 140, 5, 45
 	if tier == "thorough" {
-		cases, maxN, steps = 1000, 7, 70
+		cases, maxN, steps = 1800, 7, 70
 	}
 	for c := 0; c < cases; c++ {
 		n := 2 + r.intn(maxN-1)
@@ -810,8 +872,10 @@ func c11GenCase(w *bufio.Writer, r *rng, g c11CaseCfg) {
 			if ps := nw.peers(a); len(ps) > 0 {
 				emit("replay %d %d", a, ps[r.intn(len(ps))])
 			}
-		case x < 97:
+		case x < 96:
 			emit("stale %d %d", r.intn(n), r.pick(0, 1, 3, 8, 20))
+		case x < 97:
+			emit("withdraw %d", r.intn(n))
 		case x < 98:
 			emit("connect %d %d", r.intn(n), r.intn(n))
 		default:
